@@ -4,6 +4,8 @@ pub mod rxstate;
 pub mod sender;
 pub mod c05;
 pub mod c06;
+pub mod c07;
+pub mod c08;
 pub mod c09;
 pub mod c11;
 pub mod c12;
@@ -12,13 +14,15 @@ pub mod c17;
 pub mod c18;
 
 pub fn ids() -> Vec<&'static str> {
-    vec!["C05", "C06", "C09", "C11", "C12", "C14", "C17", "C18"]
+    vec!["C05", "C06", "C07", "C08", "C09", "C11", "C12", "C14", "C17", "C18"]
 }
 
 pub fn get(id: &str) -> Option<Property> {
     Some(match id {
         "C05" => c05::property(),
         "C06" => c06::property(),
+        "C07" => c07::property(),
+        "C08" => c08::property(),
         "C09" => c09::property(),
         "C11" => c11::property(),
         "C12" => c12::property(),
